@@ -1,6 +1,7 @@
 package props
 
 import (
+	"os"
 	"encoding/json"
 	"fmt"
 	"sort"
@@ -185,7 +186,13 @@ func (c *c04) addOther(desc string, contents func() string) {
 }
 
 // verify compares every live value and every arena with the snapshots taken when they entered the pool.
-func (c *c04) verify(event string) bool {
+func (c *c04) verify(event string) (ok bool) {
+	// the oracle's own reads are not scheduling points (lists are read cell by cell through the memo hooks)
+	c.r.Quietly(func() { ok = c.verify1(event) })
+	return
+}
+
+func (c *c04) verify1(event string) bool {
 	r := c.r
 	for i, a := range c.arenas {
 		if got := seqStr(a); got != c.asnap[i] {
@@ -238,11 +245,14 @@ type c04op struct {
 	b    int
 }
 
-const c04NOps = 68
+const c04NOps = 78
 
 func (c *c04) apply(op c04op, client int) bool {
 	r := c.r
 	c.events++
+	if os.Getenv("VERIF_C04_DEBUG") != "" {
+		fmt.Fprintf(os.Stderr, "event %d kind %d sel %d sel2 %d a %d b %d (lists %d)\n", c.events, op.kind, op.sel, op.sel2, op.a, op.b, len(c.lists))
+	}
 	desc := ""
 	even := func(v int) bool { return v%2 == 0 }
 	inc := func(v int) int { return v + 1 }
@@ -614,6 +624,133 @@ func (c *c04) apply(op c04op, client int) bool {
 			newS, newM := box.S, box.M
 			c.addOther("Option[[]int] (decoded)", func() string { return fmt.Sprint(newS) })
 			c.addOther("Option[map] (decoded)", func() string { return fmt.Sprint(newM) })
+
+		// ---- the remaining functions of packages seq and list, read-only methods of maps and sets
+		case 68, 69, 70, 71, 72, 73, 74:
+			if sid < 0 {
+				return
+			}
+			add := func(a, b int) int { return a + b }
+			switch k {
+			case 68:
+				S("seq.Init", seq.Init(s))
+				S("seq.Tail", seq.Tail(s))
+			case 69:
+				S("seq.Ap", seq.Ap(fp.Seq[fp.Func1[int, int]]{inc, func(v int) int { return v * 2 }}, s))
+				S("seq.Map2", seq.Map2(s, s.Take(2), add))
+			case 70:
+				S("seq.FilterMap", seq.FilterMap(s, func(v int) fp.Option[int] {
+					if even(v) {
+						return fp.Some(v + 1)
+					}
+					return fp.None[int]()
+				}))
+				S("seq.Lift", seq.Lift(inc)(s))
+				S("seq.LiftM", seq.LiftM(func(v int) fp.Seq[int] { return s.Take(1).Add(v) })(s))
+				S("seq.Compose", seq.Compose(func(int) fp.Seq[int] { return s }, func(v int) fp.Seq[int] { return seq.Pure(v) })(0))
+			case 71:
+				S("seq.Pure.Concat", seq.Pure(op.a).Concat(s))
+				S("seq.Empty.Concat", seq.Empty[int]().Concat(s))
+				S("seq.ComposePure", seq.ComposePure(inc)(op.a).Concat(s))
+			case 72:
+				ptrs := make(fp.Seq[*int], 0, len(s))
+				for i := range s {
+					if i%3 == 2 {
+						ptrs = append(ptrs, nil)
+					}
+					ptrs = append(ptrs, &s[i])
+				}
+				S("seq.FilterNil", seq.FilterNil(ptrs))
+			case 73:
+				sum := 0
+				s.Foreach(func(v int) { sum += v })
+				R("seq.Size/Head/Last/Iterator/FoldError/Foreach/NonEmpty", seq.Size(s), seq.Head(s), seq.Last(s), seq.Iterator(s).ToSeq(), s.NonEmpty(),
+					seq.FoldError(s, func(v int) error {
+						if v > 1000000 {
+							return fmt.Errorf("big")
+						}
+						return nil
+					}))
+				S("Widen", fp.Seq[int](s.Widen()))
+				S("SliceCasting", fp.SliceCasting[fp.Seq[int]]([]int(s)))
+			default:
+				R("list.FromSlice/ReverseSeq/ReverseSlice/Range")
+				c.addList(list.FromSlice([]int(s)), fmt.Sprintf("v%d.list.FromSlice", sid), sid)
+				c.addList(list.ReverseSeq(s), fmt.Sprintf("v%d.list.ReverseSeq", sid), sid)
+				c.addList(list.ReverseSlice([]int(s)), fmt.Sprintf("v%d.list.ReverseSlice", sid), sid)
+				c.addList(list.Range(op.a%5, op.a%5+op.b%6), "list.Range", -1)
+				c.addList(list.RangeClosed(op.a%5, op.a%5+op.b%6), "list.RangeClosed", -1)
+			}
+		case 75, 76:
+			lid := c.pickFrom(c.lists, op.sel)
+			if lid < 0 {
+				return
+			}
+			l := c.listV[lid]
+			nontriv(lid)
+			add := func(a, b int) int { return a + b }
+			if k == 75 {
+				desc = fmt.Sprintf("list.Map2/FilterMap/FlatMap/ZipWithIndex/Zip3/Flatten/Ap on list %d", lid)
+				o := c.listV[c.pickFrom(c.lists, op.sel2)]
+				firstN := func(x fp.List[int], n int) fp.List[int] {
+					var out []int
+					for ; n > 0 && x.NonEmpty(); n-- {
+						out = append(out, x.Head())
+						x = x.Tail()
+					}
+					return list.Of(out...)
+				}
+				c.addList(list.Map2(firstN(l, 2), firstN(o, 3), add), fmt.Sprintf("l%d.Map2", lid), lid)
+				// (list.FlatMap re-instantiates itself for the head and for the tail of every element whose sub-list is
+				// empty: a run of k filtered-out elements costs 2^k, so these inputs are kept short)
+				c.addList(list.FilterMap(firstN(l, 8), func(v int) fp.Option[int] {
+					if even(v) {
+						return fp.Some(v + 1)
+					}
+					return fp.None[int]()
+				}), fmt.Sprintf("l%d.FilterMap", lid), lid)
+				c.addList(list.FlatMap(firstN(l, 8), func(v int) fp.List[int] { return list.Of(v, v) }), fmt.Sprintf("l%d.FlatMap", lid), lid)
+				c.addList(list.Map(list.ZipWithIndex(l), func(t fp.Tuple2[int, int]) int { return t.I1*100 + t.I2 }), fmt.Sprintf("l%d.ZipWithIndex", lid), lid)
+				c.addList(list.Map(list.Zip3(l, o, l), func(t fp.Tuple3[int, int, int]) int { return t.I1 + t.I2 + t.I3 }), fmt.Sprintf("l%d.Zip3", lid), lid)
+				c.addList(list.Flatten(list.Of(firstN(l, 8), list.Empty[int](), firstN(o, 8))), fmt.Sprintf("l%d.Flatten", lid), lid)
+				c.addList(list.Ap(list.Of(fp.Func1[int, int](inc)), l), fmt.Sprintf("l%d.Ap", lid), lid)
+			} else {
+				desc = fmt.Sprintf("list.FoldLeft/FoldTry/FoldOption/FoldError/FoldMap/Fold*UsingMap/Min/Max/ToMap/ToGoMap/ToGoSet/Head/Foreach/Unapply on list %d", lid)
+				_ = list.FoldLeft(l, 0, add)
+				_ = list.FoldTry(l, 0, func(a, b int) fp.Try[int] { return fp.Success(a + b) })
+				_ = list.FoldOption(l, 0, func(a, b int) fp.Option[int] { return fp.Some(a + b) })
+				_ = list.FoldError(l, func(int) error { return nil })
+				_ = list.FoldMap(l, monoid.Sum[int](), inc)
+				_ = list.FoldLeftUsingMap(l, 0, add)
+				_ = list.FoldRightUsingMap(l, 0, add)
+				_, _ = list.Min(l, c04ord), list.Max(l, c04ord)
+				zi := list.ZipWithIndex(l)
+				c.addMap(list.ToMap(zi, c.h), fmt.Sprintf("l%d.ToMap", lid), lid)
+				_ = list.ToGoMap(zi)
+				_ = list.ToGoSet(l)
+				_ = list.Head(l)
+				n := 0
+				l.Foreach(func(int) { n++ })
+				if l.NonEmpty() {
+					_, tl := l.Unapply()
+					c.addList(tl, fmt.Sprintf("l%d.Unapply.tail", lid), lid)
+				}
+			}
+		case 77:
+			mid := c.pickFrom(c.maps, op.sel)
+			sid2 := c.pickFrom(c.sets, op.sel2)
+			if mid < 0 || sid2 < 0 {
+				return
+			}
+			m, st := c.mapV[mid], c.setV[sid2]
+			nontriv(mid)
+			desc = fmt.Sprintf("IsEmpty/NonEmpty/Contains/Values/Foreach/String on map %d, Foreach/SubsetOf/String/IsEmpty/NonEmpty on set %d", mid, sid2)
+			n := 0
+			m.Foreach(func(fp.Tuple2[int, int]) { n++ })
+			st.Foreach(func(int) { n++ })
+			_, _, _, _, _ = m.IsEmpty(), m.NonEmpty(), m.Contains(op.a), m.String(), st.String()
+			_, _, _ = st.IsEmpty(), st.NonEmpty(), st.SubsetOf(c.setV[c.pickFrom(c.sets, op.sel)])
+			c.addSeq(m.Values().ToSeq(), fmt.Sprintf("m%d.Values", mid), mid, -1)
 
 		// ---- builders kept after Build
 		case 58, 59:
